@@ -4,6 +4,7 @@
 //!
 #![deny(missing_docs)]
 #![cfg_attr(transparencies_stretto_verif, recursion_limit = "512")]
+#![cfg_attr(all(transparencies_stretto_verif, kani), feature(allocator_api))]
 #![allow(clippy::too_many_arguments, clippy::type_complexity)]
 #![cfg_attr(docsrs, feature(doc_cfg))]
 #![cfg_attr(docsrs, allow(unused_attributes))]
